@@ -476,6 +476,13 @@ func ruleS3Fields(r *core.Reporter) {
 		if fn != nil {
 			entry = ir.Entry(fn)
 			reqRoot = "$" + fn.Params[0].Name()
+			// the request URL is the first *url.URL parameter (the listing may have become the receiver)
+			for _, pm := range fn.Params {
+				if ir.TypeName(pm.Type()) == "net/url.URL" {
+					reqRoot = "$" + pm.Name()
+					break
+				}
+			}
 		} else if sfnTop != nil {
 			for _, ii := range ir.Ifs(sfnTop) {
 				a := ii.Atom
